@@ -82,8 +82,42 @@ end Acn.RegWire
 
 def showFloat : Acn.RegistrySim.Show Float :=
   { num := fun x => toString (bitsOfF x),
-    mat := fun m => "[" ++ ",".intercalate (m.rows.map fun r =>
-             "[" ++ ",".intercalate (r.map fun x => toString (bitsOfF x)) ++ "]") ++ "]" }
+    mat := fun m => "{\"w\":" ++ toString m.width ++ ",\"rows\":[" ++ ",".intercalate (m.rows.map fun r =>
+             "[" ++ ",".intercalate (r.map fun x => toString (bitsOfF x)) ++ "]") ++ "]}" }
+
+def readFloat : Acn.RegistrySim.Read Float :=
+  { num := fun t => if t.startsWith "f:" then (t.drop 2).toNat?.map fOfBits else none,
+    int := fun t => if t.startsWith "i:" then (t.drop 2).toInt? else none,
+    nat := fun t => if t.startsWith "i:" then (t.drop 2).toNat? else none,
+    str := fun t => if t.startsWith "s:" then some (t.drop 2).toString else none,
+    mat := fun t =>
+      if t.startsWith "m:" then
+        match Json.parse (t.drop 2).toString with
+        | .ok j =>
+          match getNat j "w", getFss j "rows" with
+          | .ok w, .ok rows => some ⟨rows, w⟩
+          | _, _ => none
+        | .error _ => none
+      else none }
+
+def parseAmb (j : Json) : Except String Acn.RegistrySim.Ambient := do
+  let inv ← (← getArr j "invoked").mapM fun v => v.getNat?
+  let occ ← (← getArr j "occ").mapM fun row => do
+    (← asArr row).mapM fun v => if v.isNull then pure none else do pure (some (← v.getStr?))
+  pure { invoked := inv, noiseIdx := ← getNat j "noise_draws", occLog := occ }
+
+/-- "decode": the implementation's own `context_dict` (ids renumbered into the model's layout, scalars tagged)
+    is decoded into a model state and the model run continues from it -/
+def handleDecode (j : Json) : Except String Json := do
+  let cfg ← parseSimCfg j
+  let sched ← parseSched (← j.getObjVal? "sched")
+  let st ← (← getArr j "store").mapM Acn.RegWire.parseObj
+  let amb ← parseAmb (← j.getObjVal? "amb")
+  match Acn.RegistrySim.decode readFloat cfg amb (Acn.Registry.Store.get st) with
+  | none => pure (Json.mkObj [("decoded", jB false)])
+  | some s0 =>
+    let r := Sim.run cfg sched (fuelFor cfg.core) s0
+    pure (((jResult cfg r).setObjVal! "decoded" (jB true)).setObjVal! "start" (Json.mkObj (jSimState cfg s0)))
 
 def handleSim (j : Json) : Except String Json := do
   let cfg ← parseSimCfg j
@@ -100,8 +134,14 @@ def handleSim (j : Json) : Except String Json := do
       let r2 := Sim.run cfg sched2 fuel r.1
       -- the model's own `to_json` of the crash-point state (AcnModel/RegistrySim.lean)
       let st := Acn.RegistrySim.encode showFloat cfg r.1
-      pure (((jResult cfg r2).setObjVal! "first" (jResult cfg r)).setObjVal! "crash_store"
-        (jList Acn.RegWire.jObj st))
+      -- the codec is an inverse pair on this state (executable instance of the theorem)
+      let amb : Acn.RegistrySim.Ambient := { invoked := r.1.core.invoked, noiseIdx := r.1.noiseIdx, occLog := r.1.occLog }
+      let back := Acn.RegistrySim.decode readFloat cfg amb (Acn.Registry.Store.get st)
+      let inv := match back with
+        | some s' => (Json.mkObj (jSimState cfg s')).compress == (Json.mkObj (jSimState cfg r.1)).compress
+        | none => false
+      pure ((((jResult cfg r2).setObjVal! "first" (jResult cfg r)).setObjVal! "crash_store"
+        (jList Acn.RegWire.jObj st)).setObjVal! "codec_inverse" (jB inv))
 
 def handle (j : Json) : Except String Json := do
   let s ← match j.getObjVal? "sim" with
@@ -110,6 +150,9 @@ def handle (j : Json) : Except String Json := do
   let r ← match j.getObjVal? "reg" with
     | .ok v => if v.isNull then pure Json.null else Acn.RegWire.handleReg v
     | .error _ => pure Json.null
-  pure (Json.mkObj [("sim", s), ("reg", r)])
+  let d ← match j.getObjVal? "decode" with
+    | .ok v => if v.isNull then pure Json.null else handleDecode v
+    | .error _ => pure Json.null
+  pure (Json.mkObj [("sim", s), ("reg", r), ("decode", d)])
 
 def main : IO Unit := runDriver handle
